@@ -149,6 +149,9 @@ func (ex *executor) store(st *state, a *Addr, v Value) {
 	for j := lo; j < hi; j++ {
 		h := ex.heapOf(st, cs[j])
 		st.heaps[cs[j].Name] = h.Store(key, v.C[j-lo])
+		if cs[j].Name == byteClassName {
+			ex.bumpVer(st, key[0])
+		}
 	}
 }
 
@@ -770,25 +773,38 @@ func (ex *executor) convert(st *state, x Value, from, to types.Type, pos token.P
 // stringOfBytes: the string value of a byte slice is an uninterpreted function
 // of a content snapshot identity; equal slices in the same heap give equal strings.
 func (ex *executor) stringOfBytes(st *state, x Value) *Term {
-	elem := types.Typ[types.Uint8]
-	cs := ex.eng.leafClasses("elem", elem, "")
-	h := ex.heapOf(st, cs[0])
-	r := App(fmt.Sprintf("strof@h%d", h.id), IntSort, x.C[0], x.C[1], x.C[2])
+	ver := ex.heapOf(st, ex.verClass()).Read([]*Term{x.C[0]})
+	r := App("strof", IntSort, x.C[0], x.C[1], x.C[2], ver)
 	AddFact(r, Eq(strLen(r), x.C[2]))
-	ex.eng.strSnap[r.id] = strSnap{heap: h, arr: x.C[0], off: x.C[1], ln: x.C[2]}
 	return r
 }
 
-type strSnap struct {
-	heap         *Heap
-	arr, off, ln *Term
+// verClass: ghost version of a byte array; it changes whenever an element of the array is
+// written, so that the string value of an untouched slice is stable across unrelated writes.
+func (ex *executor) verClass() *HeapClass {
+	return ex.eng.class(verClassName, []Sort{IntSort}, IntSort, false)
 }
+
+const verClassName = "E:uint8#ver"
+const byteClassName = "E:uint8#0"
+
+func (ex *executor) bumpVer(st *state, arr *Term) {
+	vc := ex.verClass()
+	st.heaps[vc.Name] = ex.heapOf(st, vc).Store([]*Term{arr}, FreshVar("ver", IntSort))
+}
+
 
 func (ex *executor) bytesOfString(st *state, arr, s *Term, to types.Type) {
 	elem := to.Underlying().(*types.Slice).Elem()
 	c := ex.eng.leafClasses("elem", elem, "")[0]
 	h := ex.heapOf(st, c)
 	st.heaps[c.Name] = &Heap{kind: hStr, id: nextHeapID(), cls: c, prev: h, key: []*Term{arr, s}, depth: h.depth + 1}
+	if c.Name == byteClassName {
+		// string([]byte(s)) == s as long as the fresh array is not written
+		ver := ex.heapOf(st, ex.verClass()).Read([]*Term{arr})
+		back := App("strof", IntSort, arr, BVI(0, 64), strLen(s), ver)
+		ex.assume(st, Eq(back, s))
+	}
 }
 
 func (ex *executor) execIndexAddr(st *state, t *ssa.IndexAddr) {
